@@ -13,6 +13,7 @@ import argparse
 import glob
 import json
 import os
+import re
 import shutil
 import subprocess
 import sys
@@ -38,7 +39,9 @@ def demo(wt, mdir):
     if os.path.exists(os.path.join(mdir, "demo.sh")):
         return sh("sh %s/demo.sh" % mdir, cwd=wt, timeout=600)
     srcs = " ".join(glob.glob(os.path.join(mdir, "demo*.c")))
-    rc, out = sh("cc -g -I include -I src -I src/loaders %s _build/libxmp.a -lm -lpthread -o _build/seed_demo" % srcs, cwd=wt)
+    wraps = sorted(set(re.findall(r"__wrap_(\w+)", " ".join(open(f, errors="replace").read() for f in srcs.split()))))
+    wl = (" -Wl," + ",".join("--wrap=" + w for w in wraps)) if wraps else ""
+    rc, out = sh("cc -g -I include -I src -I src/loaders %s _build/libxmp.a -lm -lpthread%s -o _build/seed_demo" % (srcs, wl), cwd=wt)
     if rc != 0:
         return 99, "demo does not compile:\n" + out
     return sh("./_build/seed_demo", cwd=wt, timeout=600)
